@@ -98,6 +98,10 @@ def replay_file(path, repo):
             elif ob.startswith("C12/parse_file"):
                 from pyvc import importcheck
                 importcheck._replay(res, repo)
+            elif ob.startswith("C04/"):
+                from pyvc import tables
+                full = tables.check(repo=repo)
+                res = dict(open={k: v for k, v in full["open"].items() if k == ob}) if ob in full["open"] else dict(open={ob: dict(text="holds on this tree")})
             elif ob.startswith("C12/handle_reserve"):
                 from pyvc import importcheck
                 full = importcheck.check_reserve(repo=repo)
